@@ -3,7 +3,7 @@
 (* re-presentation messages over 2 sleeping nodes + 1 awake node, 2 children, *)
 (* 2 value types, 2 values; write faults at every position of a flush.        *)
 EXTENDS MySensors
-Kids == (0 :> ChildV(6, EmptyFn)) @@ (1 :> ChildV(6, EmptyFn))
+Kids == (0 :> ChildV(6, Vals1(0, "stored"))) @@ (1 :> ChildV(6, EmptyFn))
 Reg == (1 :> NodeC("2.0", TRUE, Kids)) @@ (2 :> NodeC("2.0", TRUE, Kids)) @@ (3 :> NodeC("2.0", FALSE, Kids))
 Alpha == <<
   Send_(1, 0, 1, 0, Pa, TRUE), Send_(1, 0, 1, 0, Pb, TRUE), Send_(1, 0, 1, 1, Pa, TRUE), Send_(1, 1, 1, 0, Pa, TRUE),
@@ -12,7 +12,7 @@ Alpha == <<
   Send_(1, 0, 1, 0, Pa, FALSE), Send_(3, 0, 1, 0, Pa, TRUE), Send_(4, 0, 1, 0, Pa, TRUE),
   Recv_(1, 255, 3, 22, P1), Recv_(2, 255, 3, 22, P1), Recv_(3, 255, 3, 22, P1),
   Recv_(1, 255, 3, 32, PEmpty), Recv_(2, 255, 3, 32, PEmpty),
-  Recv_(1, 255, 3, 0, P57), Recv_(1, 0, 1, 0, Pa), Recv_(1, 255, 0, 17, P20), Recv_(1, 0, 0, 6, Pa),
+  Recv_(1, 255, 3, 0, P57), Recv_(1, 0, 1, 0, Pa), Recv_(1, 0, 2, 0, PEmpty), Recv_(1, 255, 0, 17, P20), Recv_(1, 0, 0, 6, Pa),
   RecvF(1, 255, 3, 22, P1, "rel", 1), RecvF(1, 255, 3, 22, P1, "rel", 2), RecvF(1, 255, 3, 22, P1, "rel", 3),
   RecvF(1, 255, 3, 32, PEmpty, "rel", 1), RecvF(1, 255, 3, 32, PEmpty, "rel", 2), RecvF(1, 255, 3, 32, PEmpty, "rel", 3),
   RecvF(2, 255, 3, 22, P1, "rel", 1), RecvF(2, 255, 3, 32, PEmpty, "rel", 1),
